@@ -346,11 +346,12 @@ def match_known(known, harness, ob):
     return None
 
 
-def run_property(prop, harnesses, tier, seed, meta):
+def run_property(prop, harnesses, tier, seed, meta, partial=False):
     """Run all harnesses of a property; print verdict lines; write evidence; return exit code."""
     t0 = time.time()
     outdir = os.path.join(BUILD, prop)
-    shutil.rmtree(outdir, ignore_errors=True)
+    if not partial:
+        shutil.rmtree(outdir, ignore_errors=True)
     os.makedirs(outdir, exist_ok=True)
     replaydir = os.path.join(BUILD, 'replay')
     os.makedirs(replaydir, exist_ok=True)
